@@ -123,19 +123,28 @@ Proof. constructor; cbn; try constructor; auto; try (unfold two64; lia). Qed.
 (** what any call does, wrap or not *)
 Definition call_effect (s s' : st) : Prop :=
   s' = s \/
-  (exists r, s' = mk_st true r (pend s ++ [r]) (now s) (inh s) /\ now s <= r /\ r mod p = 0 /\
+  (exists r, s' = mk_st true r (pend s ++ [r]) (now s) (inh s) (hdl s) /\ now s <= r /\ r mod p = 0 /\
              r < two64 /\ (has s = true -> next s < r)).
 
 Lemma tick_now_effect s s' o : W s -> tick_now f s = Some (s', o) -> call_effect s s'.
 Proof.
-  intros HW H. unfold tick_now, tick_now_g in H.
-  destruct (has s && guard_hit GGe (next s) (now s)) eqn:G.
+  intros HW H. unfold tick_now in H.
+  destruct (has s && (now s <? next s)) eqn:G.
   - inversion H; subst. left. reflexivity.
-  - destruct (this_tick f (now s)) as [r|] eqn:Et; [|discriminate].
-    unfold sched_at in H. destruct (r <? now s) eqn:El; [discriminate|].
-    inversion H; subst. right. exists r.
-    destruct (this_tick_not_before (now s) r (w_now s HW) Et) as [_ [Hm H64]]; [lia|].
-    repeat split; auto; [lia|]. intro Hh. rewrite Hh in G. cbn [andb guard_hit] in G. lia.
+  - destruct (this_tick f (now s)) as [r0|] eqn:Et; [|discriminate].
+    destruct (has s && (next s =? now s)) eqn:G2.
+    + destruct (handled_now s); [|inversion H; subst; left; reflexivity].
+      (* the tick of this instant already ran: NextTick, possibly wrapped *)
+      destruct (next_tick f (now s)) as [r|] eqn:En; [|discriminate].
+      unfold sched_at in H. destruct (r <? now s) eqn:El; [discriminate|].
+      inversion H; subst. right. exists r.
+      destruct (next_tick_not_before (now s) r (w_now s HW) En) as [_ [Hm [Hgt H64]]]; [lia|].
+      apply andb_true_iff in G2. destruct G2 as [_ G2].
+      repeat split; auto; [lia|]. intros _. lia.
+    + unfold sched_at in H. destruct (r0 <? now s) eqn:El; [discriminate|].
+      inversion H; subst. right. exists r0.
+      destruct (this_tick_not_before (now s) r0 (w_now s HW) Et) as [_ [Hm H64]]; [lia|].
+      repeat split; auto; [lia|]. intro Hh. rewrite Hh in G, G2. cbn [andb] in G, G2. lia.
 Qed.
 
 Lemma tick_later_effect s s' o : W s -> tick_later f s = Some (s', o) -> call_effect s s'.
